@@ -21,6 +21,7 @@ ALSO = {
     'C07-w2-3': ['C13'],   # router error wrapping -> SOCKS5 reply code at service level
     'C04-w2-2': ['C11'],   # UDP session relay table (service level)
     'C13-w1-2': ['C07'],
+    'C05-w3-2': ['C11'],   # server-side UDP unpackers' domain cache: misdelivery is C11's oracle
 }
 os.environ['VERIF_SHRINK_S'] = '3'  # sensitivity runs do not need minimal replays
 shard, nshards = 0, 1
